@@ -20,7 +20,7 @@ RKids3 == {RA("type", <<"VE">>), RA("not_msg_re", <<"http5">>), RA("bare", <<"ms
 
 RCls == IF Thorough THEN ExcClasses \ {"BE", "EX"} ELSE {"VE", "CU", "IE", "TO", "BX"}
 RCauses == IF Thorough THEN {<<>>, <<"OS">>, <<"BX">>, <<"VE", "TO">>, <<"IE", "BX">>}
-           ELSE {<<>>, <<"OS">>, <<"BX">>, <<"VE", "TO">>}
+           ELSE {<<>>, <<"BX">>, <<"VE", "OS">>}
 RInputs == [cls : RCls, msg : MsgClasses, causes : RCauses, ctx : {"none", "OS"}]
 
 \* ------------------------------------------------------------------ stop: atoms, kids, inputs (half-seconds)
